@@ -419,7 +419,8 @@ pub fn c01(o: &mut O, tier: &str, rng: &mut Rng) {
         // --- method in another letter case; the path with / without a trailing slash
         {
             let mut w = b.wire.clone();
-            w.method = w.method.to_ascii_lowercase();
+            // toggle the letter case of the method (methods are case-sensitive tokens)
+            w.method = if w.method.bytes().any(|c| c.is_ascii_lowercase()) { w.method.to_ascii_uppercase() } else { w.method.to_ascii_lowercase() };
             mutants.push(("method_case".to_string(), w, b.cfg.clone(), b.prov.clone()));
             let (path, rest) = match b.wire.uri.split_once('?') {
                 Some((p, q)) => (p.to_string(), format!("?{}", q)),
@@ -681,7 +682,13 @@ pub fn c01(o: &mut O, tier: &str, rng: &mut Rng) {
             };
             emit(o, 1, &b.wire, &c, &b.prov, &x, &format!("c01,flip_s3,{}", carrier));
         }
+        // a "mutation" that leaves the scenario as it was (e.g. lower-casing a method that already is
+        // lower-case) changes no covered component and carries no expectation: skip it
+        let base_line = input_line(1, &b.wire, &b.cfg, &b.prov, &refuse);
         for (nm, w, c, pv) in mutants {
+            if input_line(1, &w, &c, &pv, &refuse) == base_line {
+                continue;
+            }
             emit(o, 1, &w, &c, &pv, &refuse, &format!("c01,mut,{},{}", nm, carrier));
         }
     }
